@@ -46,10 +46,22 @@ def _dist(np, jaccarddist, x, dx, y, dy, case):
 		# NumPy's other names for the 64-bit types (C long long: equal dtype, distinct scalar type)
 		dx = {'i8': 'q', 'u8': 'Q'}.get(str(dx), dx)
 		dy = {'i8': 'q', 'u8': 'Q'}.get(str(dy), dy)
+	ax, ay = np.array(x, dtype=dx), np.array(y, dtype=dy)
 	try:
-		d = jaccarddist(np.array(x, dtype=dx), np.array(y, dtype=dy))
+		d = jaccarddist(ax, ay)
 	except Exception as e:
 		raise Violation('exception', f'jaccarddist raised {type(e).__name__}: {e}', case)
+	if (3 * len(x) + len(y)) % 7 == 0 and (len(x) or len(y)):
+		# the same sets stored in the other byte order: refused (ValueError / TypeError) or the same distance
+		for sx, sy in ((ax.astype(ax.dtype.newbyteorder()), ay), (ax, ay.astype(ay.dtype.newbyteorder()))):
+			try:
+				d2 = jaccarddist(sx, sy)
+			except (ValueError, TypeError):
+				continue
+			except Exception as e:
+				raise Violation('exception', f'jaccarddist raised {type(e).__name__}: {e} for dtypes {sx.dtype},{sy.dtype}', case)
+			if float(d2) != float(d):
+				raise Violation('storage_changes_distance', f'distance {float(d2)!r} for dtypes {sx.dtype},{sy.dtype} but {float(d)!r} for the same sets as {ax.dtype},{ay.dtype}', case)
 	return float(d)
 
 
